@@ -100,6 +100,16 @@ where
     })
   }
 
+  /// see `Subject::emitter`
+  pub(crate) fn emitter(&self) -> ReplaySubject<'a, Item> {
+    ReplaySubject {
+      subject: Arc::new(self.subject.emitter()),
+      items: Arc::clone(&self.items),
+      was_error: Arc::clone(&self.was_error),
+      was_completed: Arc::clone(&self.was_completed),
+    }
+  }
+
   pub(crate) fn set_on_subscribe<F>(&self, f: F)
   where
     F: Fn(usize) + Send + Sync + 'a,
